@@ -18,21 +18,48 @@ import (
 // armed at each point.
 
 func init() {
-	register(&Scenario{Prop: "C08", Run: runC08, Opts: sim.Options{MaxSteps: 80000, MaxSimTime: 60 * time.Minute},
+	register(&Scenario{Prop: "C08", Run: runC08, Post: postC08, Opts: sim.Options{MaxSteps: 80000, MaxSimTime: 60 * time.Minute},
 		Enum: &EnumSpec{
 			Kinds: func(site string) []string {
 				switch {
 				case strings.HasPrefix(site, "net.send"):
-					return []string{"reset", "cancel", "stall"}
+					return []string{"reset", "cancel", "stall", "close-client"}
 				case strings.HasPrefix(site, "net."):
-					return []string{"reset", "cut", "cancel", "stall"}
+					return []string{"reset", "cut", "cancel", "stall", "close-client"}
 				case strings.HasPrefix(site, "pipe."):
-					return []string{"kill-child", "exit-child", "cancel"}
+					return []string{"kill-child", "exit-child", "cancel", "close-client"}
 				}
 				return nil
 			},
 			MaxPerPilot: map[string]int{"quick": 40, "thorough": 0},
 		}})
+}
+
+// postC08: a panic in any goroutine - the library's or the caller's own, inside a library call -
+// ends the run at once, so it is judged here.
+func postC08(c *Ctx, res *sim.Result) []sim.Violation {
+	var out []sim.Violation
+	mode, _ := c.Plan["mode"].(string)
+	seen := map[string]bool{}
+	for _, e := range res.LibEvents {
+		if !strings.Contains(e, "panic") || strings.Contains(e, "handler panic") {
+			continue
+		}
+		where := e
+		if i := strings.Index(e, " ["); i > 0 {
+			where = e[:i]
+		}
+		kind := "none"
+		if f := c.S.ArmedFault(); f != nil && res.FaultFired {
+			kind = f.Kind
+		}
+		sig := fmt.Sprintf("C08|panic|mode=%s|fault=%s|%s", mode, kind, strings.ReplaceAll(where, " ", "-"))
+		if !seen[sig] {
+			seen[sig] = true
+			out = append(out, sim.Violation{Sig: sig, Msg: fmt.Sprintf("fault %s at %q: %s\n%s", kind, c.S.FaultSite, e, strings.Join(res.Notes, "\n")), Step: res.Steps})
+		}
+	}
+	return out
 }
 
 func runC08(c *Ctx) {
@@ -75,6 +102,9 @@ func runC08(c *Ctx) {
 			if cl.Link != nil {
 				cl.Link.ExitClean()
 			}
+		case "close-client":
+			// another goroutine of the application closes the client while calls are pending
+			s.Go("fault-closer", func() { cl.API.Close() })
 		case "stall":
 			// the network stops delivering: everything the server side does from now on takes forever
 			stalled = true
@@ -170,6 +200,9 @@ func runC08(c *Ctx) {
 				s.Violate(fmt.Sprintf("C08|not-prompt|mode=%s|fault=%s|%s", mode, kind, errClass(r.err)),
 					"%s %s was pending when the fault (%s at %q, t=%v) hit and failed only at t=%v (%v later): %v", r.name, r.nonce, kind, s.FaultSite, s.FaultTime, r.end, r.end-s.FaultTime, r.err)
 			}
+		case "close-client":
+			// Close ends pending calls; the statement promises an error (never a wrong or partial
+			// result) and no call blocked forever - judged above and by the wait before
 		case "stall":
 			if r.end > r.start+deadline {
 				s.Violate(fmt.Sprintf("C08|deadline-overrun|mode=%s|%s", mode, errClass(r.err)),
